@@ -18,7 +18,7 @@ def gen_cfg(path, consts, extra=""):
         f.write(extra)
 
 
-def walk_traces(chk, events, files, max_depth=40, roots=None, label="walk", long=0):
+def walk_traces(chk, events, files, max_depth=40, roots=None, label="walk", long=0, extra=()):
     """Runs the harness walk and validates each trace file with Trace_Game. Returns list of TlcResult."""
     hb = vlib.build_harness("dev")
     base = os.path.join(chk.outdir, label)
@@ -29,6 +29,7 @@ def walk_traces(chk, events, files, max_depth=40, roots=None, label="walk", long
         args += ["--roots", roots]
     if long:
         args += ["--long", long]
+    args += list(extra)
     vlib.harness(hb, args)
     paths = [base] if files == 1 else ["%s.%d" % (base, i) for i in range(files)]
 
